@@ -225,7 +225,8 @@ def run_problem(prob, method, x0mode, rec, rng, seams):
             bad("wiring:wrong-number-of-constraints", got=len(cl), want=len(rels))
 
     # ---- end-to-end against raw SciPy with reference callables --------------
-    # linearly dependent constraints active at x* (x[1] == c together with x[1] >= c): a degenerate KKT system, on which the path of the
+    # linearly dependent constraints / bounds active at x* (x[1] == c together with x[1] >= c; x[1] <= c next to the declared bound
+    # x[1] >= c): a degenerate KKT system, on which the path of the
     # direct SciPy run is decided by round-off - outside "smooth convex problem with a unique optimum"; generated no more, and not judged
     try:
         D_ = R.Decls(prob["decls"])
@@ -234,6 +235,9 @@ def run_problem(prob, method, x0mode, rec, rng, seams):
             if c_.get("active"):
                 jc, _ = R.ref_jet(D_, c_["g"], names, prob["xstar"], order=1)
                 act.append([float(v) for v in jc.g])
+        for k_, nm_ in enumerate(names):
+            if (prob.get("active_bounds") or {}).get(nm_):
+                act.append([1.0 if i_ == k_ else 0.0 for i_ in range(len(names))])
         if len(act) >= 2 and np.linalg.matrix_rank(np.array(act), tol=1e-9) < len(act):
             rec.noncomp["degenerate-active-set-at-the-manufactured-optimum"] += 1
             return
